@@ -171,6 +171,21 @@ impl Snapshot {
         }
     }
 
+    /// The same view with the runs of a write transaction's completed statements (newest
+    /// first) on top and the node label table that includes the nodes they created.
+    pub(crate) fn with_pending(
+        mut self,
+        node_labels: Arc<Vec<Vec<crate::idmap::LabelId>>>,
+        runs: &[Arc<L0Run>],
+    ) -> Self {
+        let mut all = Vec::with_capacity(runs.len() + self.runs.len());
+        all.extend(runs.iter().cloned());
+        all.extend(self.runs.iter().cloned());
+        self.runs = Arc::new(all);
+        self.node_labels = node_labels;
+        self
+    }
+
     pub fn neighbors(&self, src: InternalNodeId, rel: Option<RelTypeId>) -> NeighborsIter {
         NeighborsIter::new(self.runs.clone(), self.segments.clone(), src, rel)
     }
